@@ -60,3 +60,27 @@ func encOption(kind int) Option {
 	}
 	return nil
 }
+
+// c10Perm: out is the concatenation of the blocks in some order (each block whole and contiguous).
+func c10Perm(out string, blocks []string) bool {
+	used := make([]bool, len(blocks))
+	return c10PermRec(out, "", blocks, used, 0)
+}
+
+func c10PermRec(out, acc string, blocks []string, used []bool, k int) bool {
+	if k == len(blocks) {
+		return out == acc
+	}
+	for i := range blocks {
+		if used[i] {
+			continue
+		}
+		used[i] = true
+		if c10PermRec(out, acc+blocks[i], blocks, used, k+1) {
+			return true
+		}
+		used[i] = false
+	}
+	return false
+}
+
